@@ -178,6 +178,7 @@ class Rec:
         self.doc_ids = set(doc_ids)
         self.cache = {}
         self.unlabelled = []
+        self.first_cleanup = None   # index in `calls` of the first call made while an exception was in flight
 
     def rel(self, filename):
         root = os.path.realpath(fw.REPO) + os.sep
@@ -233,6 +234,8 @@ class Rec:
 
     def hit(self, code, frame):
         site = self.label(frame)
+        if self.first_cleanup is None and sys.exc_info()[1] is not None:
+            self.first_cleanup = len(self.calls)
         self.calls.append((site, self.canon(site, code)))
         self.nfile += 1
         if self.fault_at is not None and self.nfile == self.fault_at:
@@ -539,10 +542,13 @@ def build_doc(spec):
             net.explicit_inputs.append(n.ExplicitInput(target="p0[%d]" % i, input="pg1"))
         doc.networks.append(net)
     bad = spec.get("bad")
-    if bad == "none_diam" and doc.cells:
-        doc.cells[-1].morphology.segments[-1].distal.diameter = None          # TypeError in export
-    elif bad == "str_float" and doc.cells:
-        doc.cells[0].morphology.segments[0].distal.x = "not-a-number"          # ValueError / TypeError in export
+    if bad == "seg_id_str" and doc.cells:
+        doc.cells[-1].morphology.segments[-1].id = "x"                          # ValueError in export
+    elif bad == "loc_str" and doc.networks:
+        for p in doc.networks[0].populations:                                   # ValueError in export
+            if p.instances:
+                p.instances[0].location.x = "a"
+                break
     elif bad == "nonsense_member":
         doc.izhikevich_cells.append("this is not a component")                  # AttributeError in export
     elif bad == "none_delay" and doc.networks and doc.networks[0].projections and \
@@ -658,11 +664,11 @@ def gen_xml_spec(rng):
     spec["networks"] = [gen_network(rng, i, rich=rng.random() < 0.5) for i in range(rng.choice([0, 0, 1]))]
     r = rng.random()
     if r < 0.12:
-        spec["bad"] = "none_diam"
+        spec["bad"] = "seg_id_str"
     elif r < 0.2:
         spec["bad"] = "nonsense_member"
     elif r < 0.28:
-        spec["bad"] = "str_float"
+        spec["bad"] = "loc_str"
     return spec
 
 
@@ -677,7 +683,7 @@ def gen_h5_spec(rng):
     elif r < 0.16:
         spec["bad"] = "none_id_pop"
     elif r < 0.26:
-        spec["bad"] = "none_diam"         # the embedded-XML step fails (only with a cell)
+        spec["bad"] = "seg_id_str"        # the embedded-XML step fails (only with a cell)
     elif r < 0.32:
         spec["bad"] = "nonsense_member"   # the embedded-XML step fails with AttributeError
     return spec
@@ -813,9 +819,17 @@ def observe(kind, obj, path, fault_at=None, fault_kind=1):
     if exc is not None and not rec.delivered:
         # the input itself made the library fail
         if rec.last_raise is not None and rec.last_raise[1] is exc:
-            obs["natural"] = {"in_call": rec.last_raise[0], "kind": exc_kind(exc)}
+            j, cnt, cutat = rec.last_raise[0], 0, len(rec.calls)
+            for i, c in enumerate(rec.calls):
+                if c[1] != 8:
+                    cnt += 1
+                    if cnt == j:
+                        cutat = i + 1
+                        break
+            obs["natural"] = {"in_call": j, "kind": exc_kind(exc), "before": cutat}
         else:
-            obs["natural"] = {"site": natural_site(rec, exc), "kind": exc_kind(exc)}
+            obs["natural"] = {"site": natural_site(rec, exc), "kind": exc_kind(exc),
+                              "before": len(rec.calls) if rec.first_cleanup is None else rec.first_cleanup}
         obs["raised_msg"] = str(exc)[:120]
     release(path, rec)
     exc = None
@@ -900,9 +914,19 @@ def run_case(ctx, case, cap=60):
         clean, _ = observe(kind, obj, path)
         rec["clean"] = clean
         rec["entry"] = KIND_ENTRY[kind]
+        case["_clean_ok"] = clean["raised"] is None
         ctx.count("case:" + kind)
         ctx.count("clean:" + ("ok" if clean["raised"] is None else "raises:" + clean["raised"]))
         check_oracle(ctx, case, name, kind, obj, path, clean, None)
+        if clean["raised"] is not None and kind in ("xw", "hw", "aw") and not clean["doc_changed"]:
+            # the same call succeeds once the cause is removed from the document
+            obj_c = make_input(case, root)[1]
+            if cure(case, obj_c):
+                o2, _ = observe(kind, obj_c, path)
+                ctx.count("cured-retry")
+                if o2["raised"] is not None:
+                    ctx.fail("C08:%s:retry-failed" % name, "%s still fails after the cause was removed" % name,
+                             {"case": case, "retry": o2["raised"], "msg": o2.get("raised_msg")})
         n = clean["nfile"]
         pts = case.get("faults") or fault_points(ctx.rng, n, cap)
         kinds = [1, 2] if kind in ("xw", "hw", "aw") else [1]
@@ -936,6 +960,64 @@ def run_case(ctx, case, cap=60):
         except Exception:
             pass
     return rec
+
+
+def cure(case, obj):
+    """remove the cause of a failure from a freshly built document; False if there is nothing known to remove"""
+    spec = case["spec"]
+    done = False
+    if case["kind"] == "aw":
+        if spec["shape"] == "doc":
+            for i, c in enumerate(obj.cells):
+                c.id = "cured_cell%d" % i
+                c.morphology.id = "cured_m%d" % i
+            del obj.morphology[:]
+            return True
+        return False
+    bad = spec.get("bad")
+    if bad == "seg_id_str" and obj.cells:
+        obj.cells[-1].morphology.segments[-1].id = 77
+        done = True
+    elif bad == "loc_str":
+        for net in obj.networks:
+            for pp in net.populations:
+                for inst in pp.instances:
+                    if isinstance(inst.location.x, str):
+                        inst.location.x = 1.0
+                        done = True
+    elif bad == "nonsense_member":
+        obj.izhikevich_cells.pop()
+        done = True
+    elif bad == "none_delay":
+        for net in obj.networks:
+            for pr in net.projections:
+                for c in pr.connection_wds:
+                    if c.delay is None:
+                        c.delay = "1ms"
+                        done = True
+    elif bad == "none_id_pop":
+        for net in obj.networks:
+            for i, pp in enumerate(net.populations):
+                if pp.id is None:
+                    pp.id = "cured_p%d" % i
+                    done = True
+    if case["kind"] == "hw":
+        for net in obj.networks:
+            if net.synaptic_connections or net.explicit_inputs:
+                net.synaptic_connections = []
+                net.explicit_inputs = []
+                done = True
+            keep = [e for e in net.electrical_projections if e.electrical_connections or
+                    e.electrical_connection_instances or e.electrical_connection_instance_ws]
+            if len(keep) != len(net.electrical_projections):
+                net.electrical_projections = keep
+                done = True
+            keep = [e for e in net.continuous_projections if e.continuous_connections or
+                    e.continuous_connection_instances or e.continuous_connection_instance_ws]
+            if len(keep) != len(net.continuous_projections):
+                net.continuous_projections = keep
+                done = True
+    return done
 
 
 def check_oracle(ctx, case, name, kind, obj, path, o, fault):
@@ -974,16 +1056,18 @@ def model_lines(records):
     lines = []
     for r in records:
         clean = r["clean"]
-        j = {"op": "run", "entry": r["entry"], "faults": [[f["k"] - 1, f["fk"]] for f in r["faults"]]}
+        j = {"op": "run", "entry": r["entry"], "faults": [[f["k"] - 1, f["fk"]] for f in r["faults"]],
+             "natural": None, "prefix": False}
         nat = clean.get("natural")
         if nat is None:
             j["trace"] = clean["calls"]
-            j["natural"] = None
         elif "in_call" in nat:
-            # the file layer itself raised inside call number in_call: same as a fault injected there
-            j["trace"] = None
+            # the file layer itself raised inside call number in_call: a fault at that call
+            j["trace"] = clean["calls"][:nat["before"]]
+            j["prefix"] = True
+            j["faults"] = j["faults"] + [[nat["in_call"] - 1, nat["kind"]]]
         else:
-            j["trace"] = clean["calls"]
+            j["trace"] = clean["calls"][:nat["before"]]
             j["natural"] = [nat["site"], nat["kind"]]
         r["line"] = j
         lines.append(j)
@@ -995,8 +1079,6 @@ def compare(ctx, records, outs):
         clean = r["clean"]
         name = ENTRY_NAMES[r["entry"]]
         case = {k: v for k, v in r["case"].items() if not k.startswith("_")}
-        if r["line"]["trace"] is None:
-            continue      # handled through the prefix run below
         ctx.corr_evals += 1
         if clean["unlabelled"] or any(c[0] == 0 for c in clean["calls"]):
             ctx.disagree("site-labelling", case, {"unlabelled": clean["unlabelled"], "calls": clean["calls"][:40]},
@@ -1004,14 +1086,20 @@ def compare(ctx, records, outs):
             continue
         if not out.get("matched"):
             ctx.disagree("skeleton-accepts-trace", case,
-                         {"calls": clean["calls"][:80], "natural": clean.get("natural"), "raised": clean["raised"]},
+                         {"calls": r["line"]["trace"][:80], "natural": clean.get("natural"),
+                          "raised": clean["raised"], "msg": clean.get("raised_msg")},
                          "the extracted skeleton of %s cannot produce this sequence of file-layer calls" % name)
             continue
-        m = out["clean"]
+        mfaults = list(out["faults"])
+        nat = clean.get("natural")
+        if nat is not None and "in_call" in nat:
+            m = mfaults.pop()       # the run in which the file layer raised by itself
+        else:
+            m = out["clean"]
         real = canon_real(clean)
         if canon_model(m) != real:
-            ctx.disagree("clean-run", case, real, canon_model(m))
-        for f, mf in zip(r["faults"], out["faults"]):
+            ctx.disagree("clean-run", case, dict(real, natural=nat, msg=clean.get("raised_msg")), canon_model(m))
+        for f, mf in zip(r["faults"], mfaults):
             ctx.corr_evals += 1
             real = canon_real(f)
             mod = canon_model(mf)
@@ -1033,41 +1121,26 @@ def run_records(ctx, cases, cap=60):
     records = []
     for c in cases:
         c = json.loads(json.dumps(c))
-        # first a plain run decides whether the call succeeds at all (for the retry clause)
-        records.append(prepare_and_run(ctx, c, cap))
-    records = [r for r in records if r is not None]
+        try:
+            r = run_case(ctx, c, cap)
+        except RecursionError:
+            raise
+        except Exception as e:
+            import traceback
+            ctx.notes.append("case crashed the harness: %r %s\n%s" % (e, json.dumps(c)[:300],
+                                                                       traceback.format_exc()[-800:]))
+            ctx.disagree("harness-case", c, repr(e), None)
+            r = None
+        if r is not None and "clean" in r:
+            records.append(r)
     lines = model_lines(records)
-    # natural failures inside a file-layer call: re-express as a fault at that call on the longest clean prefix;
-    # they need the trace of a run that got further, which does not exist -> compare outcome only through the oracle
-    send = [json.dumps(j) for j in lines if j["trace"] is not None]
+    send = [json.dumps(j) for j in lines]
     rc, out = fw.run_driver("C08", send) if send else (0, [])
     if rc != 0 or len(out) != len(send):
         ctx.disagree("driver", "driver failed rc=%s" % rc, "\n".join(out[-5:]), None)
         return records
-    outs, it = [], iter(out)
-    for j in lines:
-        outs.append(json.loads(next(it)) if j["trace"] is not None else {})
-    compare(ctx, records, outs)
+    compare(ctx, records, [json.loads(x) for x in out])
     return records
-
-
-def prepare_and_run(ctx, case, cap):
-    root = tempfile.mkdtemp(prefix="verif_c08_")
-    try:
-        kind, obj, path = make_input(case, root)
-        o, _ = observe(kind, obj, path)
-        case["_clean_ok"] = o["raised"] is None
-    except Exception as e:
-        ctx.notes.append("case could not be built: %r %s" % (e, json.dumps(case)[:300]))
-        return None
-    finally:
-        shutil.rmtree(root, ignore_errors=True)
-        try:
-            import tables
-            tables.file._open_files.close_all()
-        except Exception:
-            pass
-    return run_case(ctx, case, cap)
 
 
 # ============================================================================ truncation
@@ -1195,8 +1268,8 @@ def trunc_compare(ctx, pending, outs):
 
 # ============================================================================ corpus, run, replay
 CORPUS = [
-    # repaired defect: export raises TypeError (None diameter) -> NeuroMLWriter.write must close the file
-    {"kind": "xw", "spec": {"id": "d1", "cells": [{"id": "c0", "nseg": 2}], "bad": "none_diam"}},
+    # repaired defect: export raises ValueError (a segment id that is not a number) -> NeuroMLWriter.write must close the file
+    {"kind": "xw", "spec": {"id": "d1", "cells": [{"id": "c0", "nseg": 2}], "bad": "seg_id_str"}},
     # AttributeError path (the one the repository's tests cover)
     {"kind": "xw", "spec": {"id": "d2", "izh": ["i0"], "bad": "nonsense_member"}},
     # repaired defect: exportHdf5 refuses synapticConnection / explicitInput -> the HDF5 handle must be closed
@@ -1204,7 +1277,7 @@ CORPUS = [
     {"kind": "hw", "spec": {"id": "h2", "networks": [{"id": "n", "pops": [{"id": "p0", "instances": [[0, 0, 0]]}],
                                                       "expinputs": 1}]}},
     # repaired defect: the embedded-XML step fails -> networks must be re-attached (and the handle closed)
-    {"kind": "hw", "spec": {"id": "h3", "cells": [{"id": "c0", "nseg": 1}], "bad": "none_diam",
+    {"kind": "hw", "spec": {"id": "h3", "cells": [{"id": "c0", "nseg": 1}], "bad": "seg_id_str",
                             "networks": [{"id": "n", "pops": [{"id": "p0", "size": 1}]}]}},
     # every fault point of a network with all exporters
     {"kind": "hw", "spec": {"id": "h4", "notes": "a < b", "networks": [{"id": "n", "temperature": "32degC", "pops": [
